@@ -23,12 +23,13 @@ SUBBATCHES = ("calm", "faulty")
 REFERENCE_MODELS = ["UTC twin: the same trace executed with TZ=UTC"]
 PANEL = [
     "Asia/Kolkata", "Asia/Kathmandu", "Australia/Lord_Howe", "America/New_York", "Europe/London",
-    "America/St_Johns", "Pacific/Chatham", "XXX+3:45", "EST5EDT,M3.2.0,M11.1.0", "Asia/Tokyo",
+    "America/St_Johns", "Pacific/Chatham", "XXX+3:45", "EST5EDT,M3.2.0,M11.1.0",
+    "America/Havana",      # clocks go forward AT local midnight: that day has no 00:00
 ]
 # further zones enumerated in the thorough tier
 PANEL_THOROUGH = [
     "Asia/Tehran", "Australia/Adelaide", "Pacific/Marquesas", "Africa/Casablanca", "Asia/Yangon",
-    "America/Sao_Paulo", "Europe/Lisbon", "Antarctica/Troll", "Australia/Eucla", "America/Havana",
+    "America/Sao_Paulo", "Europe/Lisbon", "Antarctica/Troll", "Australia/Eucla", "Asia/Tokyo",
 ]
 TIMEFRAMES = ["S30", "T1", "T5", "T15", "T30", "T45", "H1", "H2", "H4", "H7", "D1", "D2"]
 # local dates (naive axis) around which at least one panel zone changes its offset in 2023
@@ -98,6 +99,9 @@ def plan(seed, subbatch):
                        # hour or half an hour (the size of the panel zones' offset changes)
                        # timestamps as instances of a datetime subclass (data frames hand such objects over)
                        "stamp_subclass": sub_rng(seed, "stamp-class").random() < 0.15,
+                       # timezone-AWARE streams too (as datetimes or, with the ISO encoding, as strings with Z / an
+                       # offset): their buckets are on their own wall clock whatever the process zone is
+                       "utc_offset_min": sub_rng(seed, "aware").choice((None, None, None, None, 0, 0, 60, -210)),
                        "neighbours": ([{"tf": tf, "shift_s": sub_rng(seed, "neighbours").choice((-3600, 3600, -1800, 1800))}]
                                       if sub_rng(seed, "neighbours-p").random() < 0.3 else [])},
             "ops": [{"op": "new", "preload": pre}] + ops, "fired": dict(fired)}
@@ -192,10 +196,12 @@ def execute(trace, ctx=None):
     from .. import catalogue
 
     catalogue.STAMP_SUBCLASS = bool(trace["config"].get("stamp_subclass"))
+    catalogue.TZ_OFFSET_MIN = trace["config"].get("utc_offset_min")
     try:
         return run_property(ID, body, trace)
     finally:
         catalogue.STAMP_SUBCLASS = False
+        catalogue.TZ_OFFSET_MIN = None
         _set_tz("UTC")
 
 
